@@ -876,3 +876,93 @@ def u_unix_final_callback(ip: Interp, th: ServerTheory):
     for s, v in ip.exec_function(st, ip.repo.get("server.UnixControlServer._final_callback"), SelfV("UnixControlServer"), {}):
         ul = [e for e in s.trace if e[0] == "unlink"]
         ip.require(s, "unix:_final_callback-removes-exactly-the-server's-socket-file", z3.And(z3.BoolVal(len(ul) == 1 and not isinstance(v, Exit)), ul[0][1] == path.t) if len(ul) == 1 else z3.BoolVal(False), ("C18",))
+
+
+# ======================================================================================================
+# ControlParser.__init__ / help_formatter_factory / add_subparsers
+# (C18: everything the parser prints goes to the stream it was given; C16: help is formatted for the client's width)
+# ======================================================================================================
+@unit(PAR + "__init__+help_formatter_factory+add_subparsers", ("C18", "C16"), [PAR + "__init__", PAR + "help_formatter_factory", PAR + "add_subparsers"])
+def u_parser_init(ip: Interp, th: ControlTheory):
+    from .control_theory import NestedClassV, SuperObjV
+
+    P = ("C18", "C16")
+    SERVER_COLUMNS = z3.Const("server_terminal_columns", I)
+    th.hooks["get_terminal_size"] = lambda s, fr, pos, kws, node: [(s, RefV(z3.Const("TERMINAL_SIZE", Ref)))]
+    th.hooks["attr.columns"] = lambda s, fr, v: [(s, IntV(SERVER_COLUMNS))]
+
+    def super_init(s, fr, pos, kws, node):
+        s.trace.append(("super.__init__", list(pos), dict(kws)))
+        return [(s, NoneV())]
+
+    th.hooks["super.__init__"] = super_init
+    fi = ip.repo.get(PAR + "__init__")
+    for width_given in (True, False):
+        for fmt_given in (True, False):
+            st = th.initial()
+            stream0 = RefV(fresh("a_stream", Ref))
+            st.assume(stream0.t != NONE)
+            st.sh = {"_stream": RefV(fresh("u0", Ref)), "_terminal_width": IntV(fresh("u1", I)), "_flags": SetV.symbolic("u2", StrL()), "_commands": RefV(fresh("u3", Ref))}
+            tw = IntV(fresh("a_width", I)) if width_given else NoneV()
+            kw0 = {"prog": StrV(fresh("a_prog", S)), "usage": StrV(fresh("a_usage", S))}
+            given_fmt = RefV(fresh("a_formatter", Ref))
+            if fmt_given:
+                st.assume(given_fmt.t != NONE)
+                kw0["formatter_class"] = given_fmt
+            tag = f"[width-{'given' if width_given else 'default'},formatter-{'given' if fmt_given else 'default'}]"
+            for s, v in ip.exec_function(st, fi, SelfV("ControlParser"), {"stream": stream0, "terminal_width": tw, "kwargs": KwV(dict(kw0))}):
+                if isinstance(v, Exit):
+                    ip.require(s, f"{tag}__init__:noraise:{v.val.cls}", z3.BoolVal(False), P)
+                    continue
+                width = tw.t if width_given else SERVER_COLUMNS
+                ip.require(s, f"{tag}__init__:prints-to-the-stream-it-was-given", s.sh["_stream"].t == stream0.t, ("C18",))
+                ip.require(s, f"{tag}__init__:width-is-the-client's(or-the-server-terminal's-when-none-is-given)", s.sh["_terminal_width"].t == width, ("C16",))
+                ip.require(s, f"{tag}__init__:no-flags-taken,no-sub-commands-yet", z3.And(s.sh["_flags"].card == 0, z3.ForAll([z3.Const("x!f", S)], z3.Not(s.sh["_flags"].has(z3.Const("x!f", S)))), s.sh["_commands"].t == NONE), P)
+                si = [e for e in s.trace if e[0] == "super.__init__"]
+                ok = len(si) == 1 and not si[0][1] and set(si[0][2]) == set(kw0) | {"formatter_class"}
+                ip.require(s, f"{tag}__init__:argparse-is-initialised-once-with-the-given-options-plus-the-formatter", z3.BoolVal(ok and all(si[0][2][k] is kw0[k] for k in kw0 if k != "formatter_class")), P)
+                if not ok:
+                    continue
+                fc = si[0][2]["formatter_class"]
+                good = isinstance(fc, NestedClassV) and len(fc.bases) == 1
+                ip.require(s, f"{tag}factory:returns-a-formatter-class-derived-from-the-given-one(default:ArgumentDefaultsHelpFormatter)",
+                           z3.BoolVal(good and (isinstance(fc.bases[0], RefV) if fmt_given else (isinstance(fc.bases[0], BuiltinV) and fc.bases[0].name == "ArgumentDefaultsHelpFormatter"))), ("C16",))
+                if good and fmt_given:
+                    ip.require(s, f"{tag}factory:base-is-the-given-formatter", fc.bases[0].t == given_fmt.t, ("C16",))
+                if not good:
+                    continue
+                # the nested class's __init__ forces width = the parser's terminal width
+                init = [n for n in fc.node.body if isinstance(n, (_ast.FunctionDef,)) and n.name == "__init__"]
+                ip.require(s, f"{tag}factory:the-class-overrides-__init__", z3.BoolVal(len(init) == 1), ("C16",))
+                if len(init) != 1:
+                    continue
+                s2 = s.fork()
+                n0 = len(s2.trace)
+                f = FuncV(node=init[0], env=fc.env, name="__init__")
+                fr = Frame(fi, fi.module, SelfV("ControlParser"), 0, qual=PAR + "help_formatter_factory")
+                a_pos, a_kw = RefV(fresh("fmt_arg", Ref)), {"max_help_position": RefV(fresh("fmt_kw", Ref))}
+                for s3, v3 in ip.run_closure(s2, fr, f, {"self": RefV(fresh("fmt_self", Ref)), "args": TupleV([a_pos]), "kwargs": KwV(dict(a_kw))}):
+                    si2 = [e for e in s3.trace[n0:] if e[0] == "super.__init__"]
+                    ok2 = not isinstance(v3, Exit) and len(si2) == 1 and set(si2[0][2]) == {"max_help_position", "width"} and isinstance(si2[0][2]["width"], IntV)
+                    ip.require(s3, f"{tag}factory:formatter-is-built-with-width=the-parser's-terminal-width(other-arguments-untouched)",
+                               z3.And(z3.BoolVal(ok2), si2[0][2]["width"].t == width) if ok2 else z3.BoolVal(False), ("C16",))
+    # ---- add_subparsers -----------------------------------------------------------------------------------------
+    st = th.initial()
+    parser_self(st)
+    result = RefV(fresh("subparsers_action", Ref))
+
+    def super_add_subparsers(s, fr, pos, kws, node):
+        s.trace.append(("super.add_subparsers", list(pos), dict(kws)))
+        return [(s, result)]
+
+    th.hooks["super.add_subparsers"] = super_add_subparsers
+    a1 = StrV(fresh("a_title", S))
+    a0 = RefV(fresh("a_positional", Ref))
+    for s, v in ip.exec_function(st, ip.repo.get(PAR + "add_subparsers"), SelfV("ControlParser"), {"args": TupleV([a0]), "kwargs": KwV({"title": a1})}):
+        sa = [e for e in s.trace if e[0] == "super.add_subparsers"]
+        flat = []
+        for x in (sa[0][1] if sa else []):
+            inner = ip.deref(s, x.v) if isinstance(x, StarV) else None
+            flat.extend(inner.items if isinstance(inner, TupleV) else [x])
+        ok = not isinstance(v, Exit) and len(sa) == 1 and set(sa[0][2]) == {"title"} and sa[0][2]["title"] is a1 and len(flat) == 1 and flat[0] is a0
+        ip.require(s, "add_subparsers:delegates-once,remembers-the-commands-object-and-returns-it", z3.And(z3.BoolVal(ok), s.sh["_commands"].t == result.t, v.t == result.t) if ok and isinstance(v, RefV) else z3.BoolVal(False), P)
